@@ -179,7 +179,7 @@ func TestC45(t *testing.T) {
 	defer c.Finish()
 	c.Assume("replicas run the same binary; CometBFT is replaced by direct ABCI calls; only application-side determinism is judged")
 	c.Floor("replicas_compared", 12)
-	c.Floor("blocks_replayed", 600)
+	c.Floor("blocks_replayed", 300)
 	c.Floor("digests_compared", 200)
 	out := os.Getenv("VERIF_OUT")
 	if out == "" {
@@ -201,7 +201,7 @@ func TestC45(t *testing.T) {
 			s.Focus = "none"
 			pr := pkt.DefaultProfile()
 			pr.AsyncAck, pr.Close, pr.Redirect = 0, 0, 0 // keeper-level calls are not transactions and cannot be replayed
-			nops := 45 + r.Intn(30)
+			nops := 55 + r.Intn(30)
 			if c.Thorough() {
 				nops *= 3
 			}
